@@ -320,6 +320,21 @@ example :
       (fun s => (s.portal, s.byStop 1, s.cancelReq 1, s.fut 1, s.outcome 1, s.execs 1)) =
     some (.stopped, true, false, .done .cancelled, some (.val 5), 1) := by decide
 
+/-- the same after `stop()` when the Future is cancelled *before* the task's first step: the
+done-callback runs at once in the loop thread, but it captured `event_loop_thread_id = None`, so the
+scope is not cancelled either (history of notes/repro_portal_future_cancel_after_stop.py and
+corpus/C15/begin_after_stop_future_cancel.json) -/
+example :
+    (runFrom step init
+      [.issue 1 .coro, .stop false, .spawn 1, .cancelFuture 1, .begin 1]).map
+      (fun s => (s.pc 1, s.byStop 1, s.cancelReq 1, s.fut 1)) =
+    some (.running, true, false, .done .cancelled) := by decide
+
+/-- while the portal is running the same order does cancel the scope from the first step -/
+example :
+    (runFrom step init [.issue 1 .coro, .spawn 1, .cancelFuture 1, .begin 1]).map
+      (fun s => (s.pc 1, s.byStop 1, s.cancelReq 1, s.fut 1)) =
+    some (.running, false, true, .done .cancelled) := by decide
 /-- `start_task`: `started(7)` then the task returns 9: status keeps 7, the future has 9 -/
 example :
     (runFrom step init
